@@ -62,6 +62,11 @@ type StepPlan struct {
 	// PreMerge (bellatrix): keep the default payload.
 	PreMerge bool
 
+	// Reserve is the number of currently healthy validators the generator expects to
+	// lose later without the runner's doing (e.g. the offline set of a coming leak, which
+	// ends up ejected). The runner subtracts it from its budget for slashings and exits.
+	Reserve int
+
 	// Block, if set, is used as the base plan (its Slot is overwritten); the intents
 	// above are added on top. For hand-written scenarios.
 	Block *BlockPlan
@@ -73,7 +78,8 @@ type StepPlan struct {
 // StepResult is what happened in one step.
 type StepResult struct {
 	Plan StepPlan
-	// Kind is "skip" (nothing executed), "slots" or "block".
+	// Kind is "skip" (nothing executed), "slots", "block", or "dead" (nothing executed: no
+	// validator is active any more by the next epoch; RunScenario stops there without error).
 	Kind string
 	// Env is the produced block (Kind "block").
 	Env *common.BeaconBlockEnvelope
@@ -173,6 +179,9 @@ func RandomScenario(rng *rand.Rand, spec *common.Spec, opts ScenarioOpts) []Step
 		epoch := slot / spe
 		inEpoch := slot % spe
 		st := StepPlan{Slot: common.Slot(slot), Seed: rng.Int63()}
+		if epoch < leakStart {
+			st.Reserve = nOff // the leak's offline set will be ejected or bled dry
+		}
 		st.Skip = rng.Float64() < skipProb
 		if st.Skip && rng.Intn(4) == 0 {
 			st.AdvanceOnly = true
@@ -197,6 +206,16 @@ func RandomScenario(rng *rand.Rand, spec *common.Spec, opts ScenarioOpts) []Step
 		}
 		if rng.Intn(12) == 0 {
 			st.HoldAttestations = true
+		}
+		if epoch >= leakStart && epoch < leakEnd {
+			// During the leak every missed inclusion costs the ONLINE validators dearly
+			// (phase0 especially); with 2 slots per epoch a skipped slot loses half an epoch
+			// of attestations. Keep the survivors whole: no held attestations, and no
+			// skipped slots unless epochs are long enough to catch up.
+			st.HoldAttestations = false
+			if spe < 4 {
+				st.Skip, st.AdvanceOnly = false, false
+			}
 		}
 		st.NewestFirst = rng.Intn(3) == 0
 		// sync participation pattern
@@ -272,8 +291,10 @@ func RandomScenario(rng *rand.Rand, spec *common.Spec, opts ScenarioOpts) []Step
 type Scenario struct {
 	Chain *Chain
 	// MinActive is the number of active, unslashed, non-exiting validators the runner
-	// never goes below when resolving slashing/exit intents (default 3/8 of the registry
-	// at the time NewScenario is called).
+	// never goes below: it limits what slashing/exit intents may take out and trims
+	// Offline sets that would leave fewer healthy validators attesting (default
+	// max(2, registry/4) at the time NewScenario is called). This keeps the chain alive
+	// even under S2/S4, where offline validators are ejected within an epoch or two.
 	MinActive int
 	// KeepStates makes every StepResult carry Pre/Post copies (default true via NewScenario).
 	KeepStates bool
@@ -291,12 +312,14 @@ type pooledAtt struct {
 
 // NewScenario prepares a runner on c.
 func NewScenario(c *Chain) *Scenario {
-	return &Scenario{Chain: c, MinActive: int(c.ValidatorCount()) * 3 / 8, KeepStates: true,
+	return &Scenario{Chain: c, MinActive: max(2, int(c.ValidatorCount())/4), KeepStates: true,
 		spent: map[common.ValidatorIndex]bool{}, lastDuty: c.Slot()}
 }
 
 // RunScenario runs all steps on c and returns one result per step. It stops at the
-// first error (the failing step is the last result).
+// first error (the failing step is the last result) and, without error, when the active
+// validator set is about to run empty (last result has Kind "dead"). The runner
+// resolves intents defensively (see Scenario.MinActive), so the latter is rare.
 func (c *Chain) RunScenario(steps []StepPlan) ([]StepResult, error) {
 	sc := NewScenario(c)
 	out := make([]StepResult, 0, len(steps))
@@ -306,8 +329,76 @@ func (c *Chain) RunScenario(steps []StepPlan) ([]StepResult, error) {
 		if r.Err != nil {
 			return out, fmt.Errorf("slot %d (%s): %w", st.Slot, r.Kind, r.Err)
 		}
+		if r.Kind == "dead" {
+			break // the registry ran empty: the last result has Kind "dead", the rest is dropped
+		}
 	}
 	return out, nil
+}
+
+// isHealthy: active, unslashed, not exiting and not about to be ejected.
+func isHealthy(spec *common.Spec, v *common.FlatValidator, epoch common.Epoch) bool {
+	return v.IsActive(epoch) && !v.Slashed && v.ExitEpoch == FarFuture && v.EffectiveBalance > spec.EJECTION_BALANCE
+}
+
+// healthyCount counts the healthy validators of the head state.
+func (sc *Scenario) healthyCount() int {
+	c := sc.Chain
+	vals := c.Validators()
+	epoch := c.Epoch()
+	n := 0
+	for i := range vals {
+		if isHealthy(c.Spec, &vals[i], epoch) && !sc.spent[common.ValidatorIndex(i)] {
+			n++
+		}
+	}
+	return n
+}
+
+// aliveThrough tells whether, judging by the head registry, every epoch from the head's
+// up to `last` has at least one active validator.
+func (sc *Scenario) aliveThrough(last common.Epoch) bool {
+	vals := sc.Chain.Validators()
+	for e := sc.Chain.Epoch(); e <= last; e++ {
+		any := false
+		for i := range vals {
+			if vals[i].IsActive(e) {
+				any = true
+				break
+			}
+		}
+		if !any {
+			return false
+		}
+	}
+	return true
+}
+
+// trimOffline removes validators from the end of an offline set until at least
+// MinActive healthy validators keep attesting.
+func (sc *Scenario) trimOffline(offline []common.ValidatorIndex) []common.ValidatorIndex {
+	if len(offline) == 0 {
+		return offline
+	}
+	c := sc.Chain
+	vals := c.Validators()
+	epoch := c.Epoch()
+	off := offlineSet(offline)
+	online := 0
+	for i := range vals {
+		if isHealthy(c.Spec, &vals[i], epoch) && !off[common.ValidatorIndex(i)] && !sc.spent[common.ValidatorIndex(i)] {
+			online++
+		}
+	}
+	out := append([]common.ValidatorIndex(nil), offline...)
+	for online < sc.MinActive && len(out) > 0 {
+		last := out[len(out)-1]
+		out = out[:len(out)-1]
+		if int(last) < len(vals) && isHealthy(c.Spec, &vals[last], epoch) && !sc.spent[last] {
+			online++
+		}
+	}
+	return out
 }
 
 func offlineSet(vs []common.ValidatorIndex) map[common.ValidatorIndex]bool {
@@ -335,6 +426,19 @@ func (sc *Scenario) Step(st StepPlan) (res StepResult) {
 		}
 	}()
 	rng := rand.New(rand.NewSource(st.Seed))
+	if !sc.aliveThrough(c.Spec.SlotToEpoch(st.Slot) + 1) {
+		// every validator has exited (or will have by then): zrnt cannot compute proposers
+		// for an empty active set, the history ends here.
+		res.Kind = "dead"
+		return res
+	}
+	if sc.healthyCount() <= sc.MinActive {
+		// liveness mode: too few healthy validators left, everybody behaves
+		st.Offline, st.NoAttest, st.WrongHead, st.WrongTarget, st.HoldAttestations = nil, false, false, false, false
+		st.Skip, st.AdvanceOnly = false, false
+	}
+	st.Offline = sc.trimOffline(st.Offline)
+	res.Plan = st
 
 	// eth1 side: deposits are made regardless of whether the slot has a block
 	sc.makeDeposits(st, rng)
@@ -502,13 +606,15 @@ func (sc *Scenario) resolve(st StepPlan, pre *StateCtx, rng *rand.Rand) BlockPla
 	proposer, _ := pre.Proposer(st.Slot)
 
 	// who may be taken out without endangering liveness
+	off := offlineSet(st.Offline)
 	healthy := 0
 	for i := range vals {
-		if vals[i].IsActive(epoch) && !vals[i].Slashed && vals[i].ExitEpoch == FarFuture && !sc.spent[common.ValidatorIndex(i)] {
+		vi := common.ValidatorIndex(i)
+		if isHealthy(spec, &vals[i], epoch) && !sc.spent[vi] && !off[vi] {
 			healthy++
 		}
 	}
-	budget := healthy - sc.MinActive
+	budget := healthy - sc.MinActive - st.Reserve
 	candidates := func(ok func(i common.ValidatorIndex, v *common.FlatValidator) bool) []common.ValidatorIndex {
 		var out []common.ValidatorIndex
 		for i := range vals {
